@@ -174,7 +174,8 @@ type KnownFinding struct {
 	Status   string `json:"status"` // "known" or "fixed"
 	Property string `json:"property"`
 	Oracle   string `json:"oracle"`
-	Match    string `json:"match"` // substring of the violation detail
+	Match    string `json:"match"`            // substring of the violation detail
+	Match2   string `json:"match2,omitempty"` // optional second substring that must be present too
 	What     string `json:"what"`
 	Commit   string `json:"commit,omitempty"`
 }
@@ -198,7 +199,8 @@ func matchKnown(k []KnownFinding, v Violation) *KnownFinding {
 		if e.Status != "known" {
 			continue
 		}
-		if e.Property == v.Property && e.Oracle == v.Oracle && strings.Contains(v.Detail, e.Match) {
+		if e.Property == v.Property && e.Oracle == v.Oracle && strings.Contains(v.Detail, e.Match) &&
+			(e.Match2 == "" || strings.Contains(v.Detail, e.Match2)) {
 			return e
 		}
 	}
